@@ -28,31 +28,34 @@ type fnInfo struct {
 // Interp is one worker's interpreter. It shares the immutable ssa.Program with
 // the other workers and owns everything else.
 type Interp struct {
-	prog    *ssa.Program
-	globals map[*ssa.Global]*Value
-	ex      *Explorer
-	rm      *RModel
-	info    map[*ssa.Function]*fnInfo
-	cur     *frame
-	depth   int
-	steps   int64
+	prog      *ssa.Program
+	globals   map[*ssa.Global]*Value
+	ex        *Explorer
+	rm        *RModel
+	info      map[*ssa.Function]*fnInfo
+	cur       *frame
+	depth     int
+	steps     int64
 	pathSteps int64
 
-	maxDepth  int
-	maxSteps  int64
-	cuts      map[string]bool // functions replaced by an empty body for this path
-	cutHits   map[string]int
+	maxDepth int
+	maxSteps int64
+	cuts     map[string]bool // functions replaced by an empty body for this path
+	cutHits  map[string]int
 
 	// statistics
-	fnSeen   map[*ssa.Function]map[int]bool // blocks covered per function
-	extSeen  map[string]int
+	fnSeen  map[*ssa.Function]map[int]bool // blocks covered per function
+	extSeen map[string]int
 
 	// write tracking (C12)
-	shared     map[*Value]bool
-	sharedMaps map[*Map]bool
+	shared       map[*Value]bool
+	sharedMaps   map[*Map]bool
 	sharedWrites []string
 
 	mapSeq int
+
+	pkgInit   map[*ssa.Package]bool
+	forceInit bool
 
 	par       *parState
 	hotPtrs   map[*Value]bool
@@ -103,6 +106,7 @@ func (it *Interp) resetPath() {
 	it.sharedWrites = nil
 	it.mapSeq = 0
 	it.onDivSet = false
+	it.pkgInit = map[*ssa.Package]bool{}
 	it.par = nil
 	it.hotPtrs = nil
 	it.maxDepth = 400
@@ -187,8 +191,42 @@ func (it *Interp) global(g *ssa.Global) *Value {
 		z := zero(g.Type().(*types.Pointer).Elem())
 		p = &z
 		it.globals[g] = p
+		// package-level variables of dependencies are initialised on first touch by
+		// interpreting that package's own init (its imports' inits stay lazy too)
+		if g.Pkg != nil && !strings.HasPrefix(g.Pkg.Pkg.Path(), repoPath) && !it.pkgInit[g.Pkg] && g.Name() != "init$guard" {
+			it.pkgInit[g.Pkg] = true
+			if initFn := g.Pkg.Func("init"); initFn != nil && initFn.Blocks != nil {
+				it.forceInit = true
+				saveCur, saveDepth := it.cur, it.depth
+				func() {
+					defer func() {
+						it.forceInit = false
+						it.cur, it.depth = saveCur, saveDepth
+						if r := recover(); r != nil {
+							if ap, ok := r.(abortPath); ok {
+								panic(abortPath{"init of " + g.Pkg.Pkg.Path() + ": " + ap.why})
+							}
+							panic(r)
+						}
+					}()
+					it.runInit(initFn)
+				}()
+			}
+		}
 	}
 	return p
+}
+
+// runInit interprets a package init function body directly (bypassing the rule
+// that dependency inits are skipped).
+func (it *Interp) runInit(fn *ssa.Function) {
+	fi := it.infoOf(fn)
+	fr := &frame{fn: fn, info: fi, env: make([]Value, fi.n), caller: it.cur, depth: it.depth}
+	fr.block = fn.Blocks[0]
+	it.depth++
+	it.cur = fr
+	it.forceInit = false // nested dependency inits remain lazy
+	it.runFrame(fr)
 }
 
 func (it *Interp) get(fr *frame, v ssa.Value) Value {
@@ -700,6 +738,11 @@ func (it *Interp) guarded() bool {
 	if it.par != nil {
 		for _, o := range it.par.owner {
 			if o == it.par.cur {
+				return true
+			}
+		}
+		for _, o := range it.rm.onceRunning {
+			if o == it.par.cur+1 {
 				return true
 			}
 		}
